@@ -5,8 +5,8 @@ use educe::Educe;
 use core::cmp::Ordering;
 #[derive(Educe)]
 #[educe(PartialEq)]
-pub enum T { B(A<0>, #[educe(PartialEq(ignore))] A<1>), None(A<0>) }
-pub fn values() -> Vec<T> { vec![T::B(A(0), A(0)), T::B(A(0), A(1)), T::B(A(0), A(7)), T::B(A(1), A(0)), T::B(A(1), A(1)), T::B(A(1), A(7)), T::B(A(7), A(0)), T::B(A(7), A(1)), T::B(A(7), A(7)), T::None(A(0)), T::None(A(1)), T::None(A(7))] }
-pub fn show(x: &T) -> String { #[allow(unused_variables)] match x { T::B(p0, p1) => format!("B({},{})", sv(p0), sv(p1)), T::None(p0) => format!("None({})", sv(p0)) } }
-pub fn o_eq(a: &T, b: &T) -> bool { match (a, b) { (T::B(a0, a1), T::B(b0, b1)) => (a0 == b0), (T::None(a0), T::None(b0)) => (a0 == b0), _ => false } }
+pub struct T(A<0>, #[educe(PartialEq = true)] A<1>, #[educe(PartialEq(method(m_eq)))] A<2>);
+pub fn values() -> Vec<T> { vec![T(A(0), A(0), A(0)), T(A(0), A(0), A(1)), T(A(0), A(0), A(7)), T(A(0), A(1), A(0)), T(A(0), A(1), A(1)), T(A(0), A(1), A(7)), T(A(0), A(7), A(0)), T(A(0), A(7), A(1)), T(A(0), A(7), A(7)), T(A(1), A(0), A(0)), T(A(1), A(0), A(1)), T(A(1), A(0), A(7)), T(A(1), A(1), A(0)), T(A(1), A(1), A(1)), T(A(1), A(1), A(7)), T(A(1), A(7), A(0)), T(A(1), A(7), A(1)), T(A(1), A(7), A(7)), T(A(7), A(0), A(0)), T(A(7), A(0), A(1)), T(A(7), A(0), A(7)), T(A(7), A(1), A(0)), T(A(7), A(1), A(1)), T(A(7), A(1), A(7)), T(A(7), A(7), A(0)), T(A(7), A(7), A(1)), T(A(7), A(7), A(7))] }
+pub fn show(x: &T) -> String { #[allow(unused_variables)] match x { T(p0, p1, p2) => format!("T({},{},{})", sv(p0), sv(p1), sv(p2)) } }
+pub fn o_eq(a: &T, b: &T) -> bool { match (a, b) { (T(a0, a1, a2), T(b0, b1, b2)) => (a0 == b0) && (a1 == b1) && m_eq(a2, b2) } }
 pub fn run(out: &mut Out) { let vs = values(); for a in &vs { for b in &vs { let e = o_eq(a, b); out.check((a == b) == e, "eq_3", "eq", || format!("{} == {} expected {}", show(a), show(b), e)); out.check((a != b) == !e, "eq_3", "ne", || format!("{} != {} expected {}", show(a), show(b), !e)); } } }
